@@ -2646,10 +2646,9 @@ class CaseExpr(ColExpr):
         elif Ftype.WINDOW in val_ftypes:
             self._ftype = Ftype.WINDOW
         else:
-            raise FunctionTypeError(
-                "incompatible function types found in case statement: , ".join(val_ftypes),
-                source=self._fn_id,
-            )
+            # element-wise and aggregated values mixed, same rule as for functions:
+            # e(a) -> a
+            self._ftype = Ftype.AGGREGATE
 
         return self._ftype
 
